@@ -8,6 +8,9 @@ ap.add_argument("--own-only", action="store_true")
 a = ap.parse_args()
 only = set(x for x in a.only.split(",") if x)
 out = {}
+mp = os.path.join(HERE, "seeded", "MATRIX.json")
+if only and os.path.exists(mp):
+    out = json.load(open(mp))
 st = subprocess.run(["git", "-C", "/repo", "status", "--porcelain"], capture_output=True, text=True).stdout.strip()
 if st:
     sys.exit("refusing: /repo not clean")
@@ -18,6 +21,9 @@ for d in sorted(glob.glob(os.path.join(HERE, "seeded", "S*"))):
     meta = json.load(open(os.path.join(d, "meta.json")))
     props = [meta["breaks_property"]] + ([] if a.own_only else [p for p in meta.get("caught_by", []) if p != meta["breaks_property"]])
     r = subprocess.run(["git", "-C", "/repo", "apply", os.path.join(d, "patch.diff")], capture_output=True, text=True)
+    if r.returncode != 0 and os.path.exists(os.path.join(d, "patch.rebased.diff")):
+        # the original patch was written against an older HEAD (a later fix touched the same lines)
+        r = subprocess.run(["git", "-C", "/repo", "apply", os.path.join(d, "patch.rebased.diff")], capture_output=True, text=True)
     if r.returncode != 0:
         out[sid] = {"error": "patch does not apply to HEAD: " + r.stderr.strip()[:200]}
         print(sid, "PATCH-DOES-NOT-APPLY", flush=True)
